@@ -293,6 +293,20 @@ func Enumerate(fn *ssa.Function, opts SymOpts) ([]*Outcome, string) {
 		args = append(args, &T{Op: "param", Name: p.Name(), Typ: p.Type()})
 	}
 	sy.execFn(fn, args, nil, st, 0, func(kind, why string, res []*T, s *symState, pos token.Pos) {
+		// a returned term that this path has seen to be nil (err = f(); if err != nil {…};
+		// return err) is nil
+		for i, rt := range res {
+			if rt == nil || rt.Op == "const" {
+				continue
+			}
+			for _, cd := range s.conds {
+				if cd.Val && cd.T.Op == "bin" && cd.T.Name == "==" && len(cd.T.Args) == 2 && cd.T.Args[1].IsNil() && (cd.T.Args[0] == rt || cd.T.Args[0].String() == rt.String()) {
+					res = append([]*T(nil), res...)
+					res[i] = &T{Op: "const", Typ: rt.Typ}
+					break
+				}
+			}
+		}
 		sy.out = append(sy.out, &Outcome{Kind: kind, Why: why, Results: res, Conds: s.conds, Trace: s.trace, Mem: s.mem, Lit: s.lit, Pos: pos})
 	})
 	return sy.out, sy.abort
